@@ -108,6 +108,19 @@ func Range(k string, lo, hi int) int {
 	return lo + Choose(k, hi-lo+1)
 }
 
+// RangeClamp is Range for bounds that depend on something the native run computes differently (sizes of files written
+// through a stand-in under the engine): natively a value beyond the range is taken as the upper bound.
+func RangeClamp(k string, lo, hi int) int {
+	if Symbolic() {
+		return Range(k, lo, hi)
+	}
+	v := int(get(k))
+	if v > hi-lo {
+		v = hi - lo
+	}
+	return lo + v
+}
+
 // Concrete case-splits a symbolic int into its feasible concrete values. INTERCEPTED.
 func Concrete(x int) int { return x }
 
